@@ -2,7 +2,7 @@ CHECK = {
         "obligations": ["C03.c03_close_after_data", "C03.c03_simultaneous", "C03.c03_local_close_keeps_buffer", "C03.c03_read_enabled",
                         "C03.sender_spec", "C03.gen_structure", "ST.gen_flags", "ST.gen_pipe_eof", "ST.pipeRead_eq", "ST.step_J", "ST.run_J",
                         "C02.write_sim", "C02.gen_fast", "C02.gen_stale", "C02.gen_loop",
-                        "C03.c03_nothing_after_close", "C03.gen_chk_under_lock", "C13.c13_chk_outside_witness"],
+                        "C03.c03_nothing_after_close", "C03.gen_chk_under_lock", "C03.gen_closing_payload", "C13.c13_chk_outside_witness"],
         "lean_module": "CloakModel.Props.C03Close",
         "scenarios": ["C03"],
         "reset_ops": ["st.new"],
